@@ -5,6 +5,7 @@ CONSTANTS
   MaxCheckouts = 1
   MaxEdits = 1
   Variant = "lt"
+  Restores = {}
   Emit = TRUE
 INVARIANTS Inv_Seen EmitInv
 CHECK_DEADLOCK FALSE
